@@ -26,6 +26,8 @@ def run(ctx, rep):
                 "extracted constants (names array, id constants, dispatch switch).")
     rep.assume("NUL inside an argument is outside the property's alphabet")
     _codecs.fresh_output_files(F, rep, "C18.fresh-file", ["compiler", "bytecode_dev_transpiler"], 2)
+    from props import _strunits
+    _strunits.unit_mix(F, rep, "C18.index-unit", ["bytecode_dev_transpiler", "compiler"])
     rep.assume("a character not compared against any constant by the reader behaves like the class representative")
     try:
         rf, tab = _codecs.reader(F)
